@@ -138,8 +138,8 @@ CLAIMS["C14"] = ("other",
     "program (no aliasing of parameter lists); converting back rebuilds the same commands; measured-parameter expressions are "
     "re-bound to the same mode of the loaded program. Proved for every real |p| <= 1e6: io.utils._factor_out_pi returns text "
     "denoting its argument (lemma chain over round / mod). Bounded stand-in: text round trip through the real serialisers "
-    "and parsers for every class of ops.__all__ x {blackbird, xir}, generate_code executed. F19, F43a-c, F49 found and repaired; "
-    "F20, F35, F43-F48, F50 are open findings (dagger never serialised, symbolic parameters lost in the text, classes the IRs "
+    "and parsers for every class of ops.__all__ x {blackbird, xir}, generate_code executed. F19, F43b-c, F49 found and repaired; "
+    "F20, F35, F43a, F43-F48, F50 are open findings (TDM programs not serialisable to Blackbird text, dagger never serialised, symbolic parameters lost in the text, classes the IRs "
     "cannot express, generate_code drops select/dark_counts/dagger).",
     "blackbird / xir containers are record stubs in the proofs, their serialisers and parsers are only exercised by the bounded "
     "stand-in; real sympy is executed; floats as reals, np.isclose as its defining inequality",
